@@ -255,7 +255,7 @@ func (fr *Frame) ctxObserver(m string, recv *Val, c *ssa.CallCommon) *Val {
 func (fr *Frame) beRead(b *Val, n int, pos token.Pos, rt types.Type) *Val {
 	vc := fr.vc
 	fr.safety("bounds", fmt.Sprintf("BigEndian.Uint%d", n*8), pos, sx("<=", num(int64(n)), sx("slen", b.T)))
-	hn, hs := fr.elemHeap(SInt)
+	hn, hs := fr.U().elemHeapT(types.Typ[types.Uint8])
 	row := sel(vc.heap(fr.st, hn, hs), sx("sarr", b.T))
 	var t Term = "0"
 	for j := 0; j < n; j++ {
@@ -274,7 +274,7 @@ func (fr *Frame) beRead(b *Val, n int, pos token.Pos, rt types.Type) *Val {
 func (fr *Frame) beWrite(b, v *Val, n int, pos token.Pos) {
 	vc := fr.vc
 	fr.safety("bounds", fmt.Sprintf("BigEndian.PutUint%d", n*8), pos, sx("<=", num(int64(n)), sx("slen", b.T)))
-	hn, hs := fr.elemHeap(SInt)
+	hn, hs := fr.U().elemHeapT(types.Typ[types.Uint8])
 	h := vc.heap(fr.st, hn, hs)
 	row := sel(h, sx("sarr", b.T))
 	for j := 0; j < n; j++ {
